@@ -21,3 +21,10 @@ package types
 //@ trusted
 //@ modifies staking.*
 //@ ensures [amount_non_negative] err == nil ==> amount >= 0
+
+// GetDelegation and GetValidatorSet read the staking store.
+//@ func (sk StakingKeeper).GetDelegation(ctx, delAddr, valAddr) (delegation, err)
+//@ trusted
+
+//@ func (sk StakingKeeper).GetValidatorSet() (vs)
+//@ trusted
